@@ -145,6 +145,25 @@ func c02Inputs(c *Ctx) []string {
 		inputs = append(inputs, c.R.Bytes(c.R.N(16), "@: !;=\\\x01A1#\tpP"))
 		inputs = append(inputs, mutate(c.R, validSeeds[c.R.N(len(validSeeds))]))
 	}
+	// CTCP-shaped payloads: PRIVMSG/NOTICE, a target, and a \x01-framed trailing built from few tokens
+	ctcpTok := []string{" ", "\t", "\x01", "A", "ACTION", "action", "VERSION", "  ", "\xc2\x85", "x y"}
+	for i := 0; i < c.Pick(6000, 60000); i++ {
+		var sb strings.Builder
+		if c.R.P(1, 2) {
+			sb.WriteString(":n!u@h ")
+		}
+		sb.WriteString(c.R.Pick("PRIVMSG", "NOTICE", "privmsg", "Notice"))
+		sb.WriteString(c.R.Pick(" me", " #c", "", " a b"))
+		sb.WriteString(c.R.Pick(" :", " ", " :", " : "))
+		sb.WriteString("\x01")
+		for k := c.R.N(4); k > 0; k-- {
+			sb.WriteString(ctcpTok[c.R.N(len(ctcpTok))])
+		}
+		if c.R.P(5, 6) {
+			sb.WriteString("\x01")
+		}
+		inputs = append(inputs, sb.String())
+	}
 	return inputs
 }
 
